@@ -32,6 +32,10 @@ type CorpusPkg struct {
 	Name   string  `json:"name"`
 	Spec   string  `json:"spec"`
 	Routes []Route `json:"routes"`
+	// StubErrors: the spec has a common default response ("convenient errors"), so failures of the security
+	// stage and of the handler are turned into responses by Handler.NewError - here the stub's, which returns
+	// a zero value. Statuses produced that way say nothing about ogen.
+	StubErrors bool `json:"stub_errors"`
 }
 
 const corpusConfig = "parser:\n  infer_types: true\n  allow_remote: true\ngenerator:\n  ignore_not_implemented: [\"all\"]\n"
@@ -98,13 +102,13 @@ func prepareCorpus(s *build.Scratch, specs []string) ([]CorpusPkg, map[string]st
 				_ = os.RemoveAll(target)
 				return
 			}
-			routes, hasServer, err := glue(target)
+			routes, hasServer, stubErrors, err := glue(target)
 			if err != nil || !hasServer || len(routes) == 0 {
 				skipped[rel] = "no path server in the generated package"
 				_ = os.RemoveAll(target)
 				return
 			}
-			pkgs = append(pkgs, CorpusPkg{Name: name, Spec: rel, Routes: routes})
+			pkgs = append(pkgs, CorpusPkg{Name: name, Spec: rel, Routes: routes, StubErrors: stubErrors})
 		}(rel)
 	}
 	wg.Wait()
@@ -113,7 +117,7 @@ func prepareCorpus(s *build.Scratch, specs []string) ([]CorpusPkg, map[string]st
 }
 
 // glue writes zz_sim_glue.go into a generated package: a constructor that needs no typed harness.
-func glue(dir string) ([]Route, bool, error) {
+func glue(dir string) (_ []Route, hasServer, stubErrors bool, _ error) {
 	fset := token.NewFileSet()
 	var routes []Route
 	hasNewServer, hasSec, hasUnimpl := false, false, false
@@ -126,11 +130,14 @@ func glue(dir string) ([]Route, bool, error) {
 		p := filepath.Join(dir, e.Name())
 		src, err := os.ReadFile(p)
 		if err != nil {
-			return nil, false, err
+			return nil, false, false, err
 		}
 		f, err := parser.ParseFile(fset, p, src, parser.ParseComments)
 		if err != nil {
-			return nil, false, err
+			return nil, false, false, err
+		}
+		if strings.Contains(string(src), "func (UnimplementedHandler) NewError(") {
+			stubErrors = true
 		}
 		if e.Name() == "oas_server_gen.go" {
 			for _, l := range strings.Split(string(src), "\n") {
@@ -173,7 +180,7 @@ func glue(dir string) ([]Route, bool, error) {
 		}
 	}
 	if !hasNewServer || !hasUnimpl {
-		return routes, false, nil
+		return routes, false, stubErrors, nil
 	}
 	// dedupe routes (webhook comments do not start with a slash path, so they are not in the list)
 	seen := map[string]bool{}
@@ -196,7 +203,7 @@ func glue(dir string) ([]Route, bool, error) {
 	} else {
 		sb.WriteString("// SimNewServer builds the server with the stub handler and one middleware.\nfunc SimNewServer(mw Middleware) (http.Handler, error) {\n\treturn NewServer(UnimplementedHandler{}, WithMiddleware(mw))\n}\n")
 	}
-	return rs, true, os.WriteFile(filepath.Join(dir, "zz_sim_glue.go"), []byte(sb.String()), 0o644)
+	return rs, true, stubErrors, os.WriteFile(filepath.Join(dir, "zz_sim_glue.go"), []byte(sb.String()), 0o644)
 }
 
 // weedCorpus compiles every corpus package on its own and drops those that do not build (that is C02's
